@@ -446,10 +446,11 @@ class Session:
         self.bdir, self.cwd = bdir, cwd
         self.cls = sess["cls"]
         self.plan = Plan(sess, ref)
+        self.ref = ref
         self.viol = []           # (key, what, replay)
         self.st = dict(points=0, commands=0, processes=0, marker_checks=0, echo_checks=0, stack_checks=0, pane_checks=0, listing_lines=0,
                        traversed=0, reached_end=0, failing_step=0, hist_runs=0, hist_points=0, hist_rewinds_ok=0, hist_rewinds_refused=0,
-                       hist_cut_at_end=0, hist_cut_state=0, tool_problem=0, marker_none_checks=0, marker_header_checks=0, marker_commit_checks=0)
+                       hist_cut_at_end=0, hist_cut_state=0, tool_problem=0, after_failure_checks=0, marker_none_checks=0, marker_header_checks=0, marker_commit_checks=0)
         self.sample = None
         self.listing = None       # texts of the first print
         self.n_commit_lines = None
@@ -710,6 +711,27 @@ class Session:
                 expected_fail = (P.fail_at == k) or (P.valid is False and mk["kind"] == "op" and mk["code"] in SIG_CODES) or (P.S[min(k + 1, P.T)] is None)
                 if not expected_fail:
                     self.v("step-differs-from-reference:%s" % self.cls, "step %d (%s) fails with %r; the reference executes it" % (k + 1, self.describe(mk), msg))
+                # the marker still designates the failed operation: the NEXT step must then be that operation again, executed on the stack
+                # the tool now shows (checked for plain sessions and operations without conditional / alt-stack / signature state)
+                if (self.s["kind"] == "plain" and mk["kind"] == "op" and not mk["data"] and mk["code"] > 0x60 and mk["code"] not in (COND_CODES | ALT_CODES | SIG_CODES | {0xab})
+                        and i + 2 < len(t.segs)):
+                    cur = parse_stack(kseg)
+                    sseg2, kseg2 = t.segs[i], t.segs[i + 2]
+                    if cur is not None:
+                        rr = self.ref.run(self.s["ref"]["sv"], self.s["ref"]["flags"], "%02x" % mk["code"], cur)
+                        ref_ok = (not rr.get("refused")) and rr["ok"]
+                        self.st["after_failure_checks"] = self.st.get("after_failure_checks", 0) + 1
+                        if sseg2 == "":
+                            msg2 = t.next_msg()
+                            tool_ok = False
+                        else:
+                            tool_ok, msg2 = True, None
+                        got2 = parse_stack(kseg2)
+                        if tool_ok != ref_ok or (tool_ok and got2 != rr["stack"]):
+                            self.v("marker-not-next-operation:after-failed-step:%s" % self.cls,
+                                   "step %d (%s) failed with %r and the marker stays on it, but the following step %s; executing the marked operation on the shown stack %s %s"
+                                   % (k + 1, self.describe(mk), msg, ("succeeds with stack %s" % [short(x, 20) for x in (got2 or [])]) if tool_ok else ("fails with %r" % msg2),
+                                      [short(x, 20) for x in cur], ("gives %s" % [short(x, 20) for x in rr["stack"]]) if ref_ok else "fails"))
                 break
             view = parse_view(sseg)
             if view is None:
